@@ -34,6 +34,16 @@ def dispatch (op : String) (args : List String) : Option String :=
         let m := mk lz F (← ms.toNat?) (← hl.toNat?) (← sz.toNat?)
         pure (match copySampleData t m F (← wl.toNat?) (← x.toNat?) (← y.toNat?) with | some b => toHex b | none => "err")
       | _ => none
+  | "seg.copy", a => do
+      -- examples/segmenter copyMediaData (`segmenter -lazy`): the CopySampleData chunk walk without work buffer, read
+      -- straight from the input file; trailing fields (segment duration, track, segment number) only serve the replay
+      let t ← C09.parseTables (a.take 7)
+      match a.drop 7 with
+      | ms :: hl :: sz :: x :: y :: h :: _ =>
+        let F ← fromHex h
+        let m := decodeLazy (← ms.toNat?) (← hl.toNat?) (← sz.toNat?)
+        pure (match copySampleData t m F 0 (← x.toNat?) (← y.toNat?) with | some b => toHex b | none => "err")
+      | _ => none
   | _, _ => none
 
 end Mp4ff.Driver.C08
